@@ -1,10 +1,12 @@
 # Table consumed by tools/mkmanifest.py.  Keep in step with DESIGN.md section 0.
-HOOK_COMMITS = ['e70c2587', '617a5e89']
+HOOK_COMMITS = ['e70c2587', '617a5e89', '9a510528']
 NOTES = ('Solver-based checking of the real code: Kani/CBMC harnesses (engine K), a MIR symbolic executor with z3 (engine M), '
          'SMT tables over the real reflection database and doc tables (engine Z). exit 2 = inconclusive (never success, never violation). '
          'Known findings: known_findings.json.')
 ENGINES = [
-    dict(name='M', path='vlib/mirsym/', serves_properties=['C09', 'C10', 'C11', 'C12'],
+    dict(name='Z', path='vlib/ztables.py', serves_properties=['C16'],
+         kind_free_text='the real reflection database (dumped by tools/dbdump through the real serde types) as SMT-LIB uninterpreted-function tables; closure facts decided as unsat of their negation by z3, cross-checked by cvc5'),
+    dict(name='M', path='vlib/mirsym/', serves_properties=['C09', 'C10', 'C11', 'C12', 'C18'],
          kind_free_text='symbolic executor over rustc MIR text (regenerated from /repo each run) with z3: forking on solver-feasible branches, contract models for std containers, postconditions as unsat queries, counterexamples replayed natively by tools/replayer'),
     dict(name='K', path='vlib/kani.py + kani/*.rs', serves_properties=['C01', 'C03', 'C13', 'C15', 'C17'],
          kind_free_text='Kani 0.68 proof harnesses compiled into the real crates through a cfg-guarded include; CBMC decides; counterexamples replayed natively with cargo kani playback'),
@@ -33,7 +35,12 @@ claim('C11', 'clone_within / clone_into_external / clone_multiple_into_external:
 claim('C12', 'unique_ids bookkeeping equals the ids held and ids stay pairwise distinct after every operation from any valid state with symbolic (possibly colliding) incoming ids; an id is replaced iff it collides with one present in the destination and preserved otherwise; destroy/transfer free ids. Partial: UniqueId::now itself is a freshness contract here (interleavings of now(): not yet part of the claim); reader-produced DOMs outside.',
       DOM_NOTE, 'symbolic execution of rustc MIR with z3 (inductive invariant over the hidden bookkeeping set), native replay incl. probes of the hidden set', 'DESIGN.md section 5 C12', 'M')
 
+claim('C16', 'Closure facts over the bundled database, decided by z3 (cvc5 cross-check) on SMT tables generated from the database as the real crates decode it: superclasses exist and chains end, aliases name canonical properties, serializes-as targets exist, migration targets resolve to serializable properties of the right type, referenced enums exist, every default belongs to a known property and has the declared / serialized type. Exhaustive over all 797 classes, 3242 descriptors, 7231 defaults. Partial: codec round trip of defaults and lookups on other databases are outside.',
+      'dbdump decoding; UF tables with exact closed-world lookup constraint; chain-lookup facts decided instance-wise (one query per entry)', 'SMT (z3/cvc5) over tables generated from the real database', 'DESIGN.md section 5 C16', 'Z')
+claim('C18', 'Every program of 2 threads x 2 operations (new / clone / drop, symbolic contents) plus the regression program, under every interleaving of the intern table critical sections and the release-to-cleanup window (and at every synchronisation call with <=2 preemptions): bytes exposed, equal contents share one buffer, no deadlock/panic, empty table at quiescence. Thorough: 2x3, 3x2 and <=3 preemptions.',
+      'Arc/Weak/Mutex/HashMap contract models; blake3 injective; sequential consistency; bounds as stated', 'symbolic execution of rustc MIR with a systematic schedule explorer (stateless DFS), z3 for content equalities, schedule replay on real threads', 'DESIGN.md section 5 C18', 'M')
+
 NA['C02'] = 'XML text path runs through xml-rs (third-party character state machines) and core::fmt/dec2flt float text; neither Kani nor the MIR engine can encode them within reach (DESIGN.md C02)'
 NA['C05'] = 'needs an independent XML parser reading xml-rs emitter output and the xml-rs tokenizer reading foreign documents; not encodable (DESIGN.md C05)'
-for p in ('C04', 'C06', 'C07', 'C08', 'C14', 'C16', 'C18'):
+for p in ('C04', 'C06', 'C07', 'C08', 'C14'):
     NA[p] = NOT_BUILT
